@@ -42,10 +42,16 @@ def main():
     res = {"property": prop, "seed_dir": d, "tier": tier}
     t0 = time.time()
     try:
-        shutil.copytree("/repo", scratch, ignore=shutil.ignore_patterns(".git", "__pycache__", "*.pyc", ".pytest_cache"))
-        rc, out = sh("git apply --unsafe-paths --directory=%s %s" % (scratch, os.path.join(d, "patch.diff")), cwd="/")
+        # a scratch git worktree of /repo's HEAD (so that patches written against an older HEAD can be 3-way merged)
+        rc, out = sh("git -C /repo worktree add -q --detach %s HEAD" % scratch)
+        rc, out = sh("git apply %s" % os.path.join(d, "patch.diff"), cwd=scratch)
         if rc != 0:
-            rc, out = sh("patch -p1 < %s" % os.path.join(d, "patch.diff"), cwd=scratch)
+            rc, out = sh("git apply -3 %s" % os.path.join(d, "patch.diff"), cwd=scratch)
+            res["applied_by"] = "3way"
+        if rc != 0:
+            sh("git checkout -- . ", cwd=scratch)
+            rc, out = sh("patch -p1 -F3 < %s" % os.path.join(d, "patch.diff"), cwd=scratch)
+            res["applied_by"] = "patch-fuzz"
         res["apply_rc"] = rc
         if rc != 0:
             res["apply_out"] = out[-1500:]
@@ -80,7 +86,9 @@ def main():
                         pass
                     break
     finally:
+        sh("git -C /repo worktree remove --force %s" % scratch)
         shutil.rmtree(scratch, ignore_errors=True)
+        sh("git -C /repo worktree prune")
     res["wall_s"] = round(time.time() - t0, 1)
     with open(os.path.join(d, "result.json"), "w") as f:
         json.dump(res, f, indent=1, default=str)
